@@ -76,6 +76,9 @@ type Exec struct {
 	reach    map[*Obj]map[*Obj]bool
 	dummies  map[string]*Obj
 	qdecl    []qline
+	scriptNames map[string]bool
+	nameMemo map[string]memoEnt
+	freshCtx int
 	qscript  []qline
 	qmu      sync.Mutex
 }
@@ -130,6 +133,14 @@ func (ex *Exec) fact(t Term) {
 	if t.IsTrue() {
 		return
 	}
+	// facts that mention script-defined names must follow their definitions
+	var buf []string
+	for _, s := range symbolsOf(t.S, buf) {
+		if ex.scriptNames[s] {
+			ex.script = append(ex.script, "(assert "+t.S+")")
+			return
+		}
+	}
 	ex.decls = append(ex.decls, "(assert "+t.S+")")
 }
 
@@ -138,12 +149,26 @@ func (ex *Exec) name(t Term, hint string) Term {
 	if t.Const != nil || len(t.S) <= 40 || ex.noName > 0 {
 		return t
 	}
+	if ex.inEntry == 0 {
+		if k, ok := ex.nameMemo[t.S]; ok && k.idx < len(ex.script) && ex.script[k.idx] == k.line {
+			return Var(k.name, t.Sort)
+		}
+	}
 	n := ex.fresh(hint)
 	if ex.inEntry > 0 {
 		ex.decls = append(ex.decls, fmt.Sprintf("(define-fun %s () %s %s)", n, t.Sort.String(), t.S))
 		return Var(n, t.Sort)
 	}
-	ex.script = append(ex.script, fmt.Sprintf("(define-fun %s () %s %s)", n, t.Sort.String(), t.S))
+	line := fmt.Sprintf("(define-fun %s () %s %s)", n, t.Sort.String(), t.S)
+	if ex.nameMemo == nil {
+		ex.nameMemo = map[string]memoEnt{}
+	}
+	ex.nameMemo[t.S] = memoEnt{name: n, idx: len(ex.script), line: line}
+	ex.script = append(ex.script, line)
+	if ex.scriptNames == nil {
+		ex.scriptNames = map[string]bool{}
+	}
+	ex.scriptNames[n] = true
 	return Var(n, t.Sort)
 }
 
@@ -180,7 +205,7 @@ func (ex *Exec) oblige(st *State, kind, name string, goal Term, tags []string, p
 
 func (ex *Exec) newObj(name string, t types.Type) *Obj {
 	ex.objCtr++
-	return &Obj{ID: ex.objCtr, Name: name, Typ: t}
+	return &Obj{ID: ex.objCtr, Name: name, Typ: t, Fresh: ex.freshCtx > 0}
 }
 
 // ---------- type walk ----------
@@ -496,6 +521,10 @@ func (ex *Exec) lookupCell(st *State, o *Obj, key string, leaf types.Type, isReg
 		}
 		var v *Val
 		nm := o.Name + strings.ReplaceAll(key, "[*]", "")
+		if o.Fresh {
+			ex.freshCtx++
+			defer func() { ex.freshCtx-- }()
+		}
 		if sd := ex.p.shapeFor(o, key); sd != nil && !isRegion {
 			v = ex.evalShape(sd, o, leaf, nm)
 		} else if isRegion {
@@ -918,4 +947,10 @@ func (ex *Exec) shapeHavoc(st *State, o *Obj, key string, t types.Type, nm strin
 		return &Val{K: KIface, Typ: cur.Typ, Tag: tag, Cases: cur.Cases}
 	}
 	return ex.freshVal(t, nm)
+}
+
+type memoEnt struct {
+	name string
+	idx  int
+	line string
 }
